@@ -384,26 +384,116 @@ package base
 //@   loop 0 invariant prog: it != nil && fin == 0 && iters == bodyrun && iters + gget(itrem, it) == n0 && gget(itpos, it) == iters && 0 <= iters && gget(itrem, it) >= 0
 //@   loop 0 decreases gget(itrem, it)
 
-//@ func (*MethodCall).Evaluate
-//@   props C09
-//@   ensures true
-//@   modifies frame evalframe
-//@   trusted call contracts pending
-
-//@ func (*FunctionCall).Evaluate
-//@   props C09
-//@   ensures true
-//@   modifies frame evalframe
-//@   trusted call contracts pending
-
-//@ func (*ThreeLevelCall).Evaluate
-//@   props C09
-//@   ensures true
-//@   modifies frame evalframe
-//@   trusted call contracts pending
-
 //@ func (*ConcStatement).Evaluate
 //@   props C18
 //@   ensures true
 //@   modifies frame evalframe
 //@   trusted conc contract pending
+
+//@ func (*FunctionCall).Evaluate$1
+//@   props C09 C20
+//@   recoverer
+//@   requires fc != nil
+//@   ensures [C09] converted: panicking ==> err != nil
+//@   ensures [C20] cites: panicking ==> cite(err) == fc.LineNum
+//@   ensures unchanged: !panicking ==> err == old(err)
+//@   modifies err
+//@   nopanic
+
+// FunctionCall: arguments are evaluated once, in order, before the one call; a failing call yields an error citing this node (C03, C09, C20)
+//@ func (*FunctionCall).Evaluate
+//@   props C03 C09 C20
+//@   requires fc != nil
+//@   recovers
+//@   nopanic
+//@   ghost nargs int = 0
+//@   ghost ncall int = 0
+//@   ghost argv []reflect.Value = nil
+//@   ghost argfail bool = false
+//@   ghost callerr error = nil
+//@   oncall (*Args).Evaluate
+//@     assert [C03] argsfirst: nargs == 0 && ncall == 0 && recv == fc.FunctionArgs
+//@     after nargs := 1
+//@     after argv := callresult.0
+//@     after argfail := callresult.1 != nil
+//@   oncall (*context.DataContext).ExecFunc
+//@     assert [C03] onecall: ncall == 0 && !argfail && arg1 == fc.FunctionName && (nargs == 1 ==> arg2 == argv)
+//@     after ncall := 1
+//@     after callerr := callresult.1
+//@   ensures [C03] argerror: argfail ==> ncall == 0 && result.1 != nil
+//@   ensures [C20] callerrorcites: ncall == 1 && callerr != nil ==> result.1 != nil && cite(result.1) == fc.LineNum
+//@   modifies frame evalframe
+
+//@ func (*MethodCall).Evaluate$1
+//@   props C09 C20
+//@   recoverer
+//@   requires mc != nil
+//@   ensures [C09] converted: panicking ==> err != nil
+//@   ensures [C20] cites: panicking ==> cite(err) == mc.LineNum
+//@   ensures unchanged: !panicking ==> err == old(err)
+//@   modifies err
+//@   nopanic
+
+// MethodCall: arguments are evaluated once, in order, before the one call; a failing call yields an error citing this node (C03, C09, C20)
+//@ func (*MethodCall).Evaluate
+//@   props C03 C09 C20
+//@   requires mc != nil
+//@   recovers
+//@   nopanic
+//@   ghost nargs int = 0
+//@   ghost ncall int = 0
+//@   ghost argv []reflect.Value = nil
+//@   ghost argfail bool = false
+//@   ghost callerr error = nil
+//@   oncall (*Args).Evaluate
+//@     assert [C03] argsfirst: nargs == 0 && ncall == 0 && recv == mc.MethodArgs
+//@     after nargs := 1
+//@     after argv := callresult.0
+//@     after argfail := callresult.1 != nil
+//@   oncall (*context.DataContext).ExecMethod
+//@     assert [C03] onecall: ncall == 0 && !argfail && arg1 == mc.MethodName && (nargs == 1 ==> arg2 == argv)
+//@     after ncall := 1
+//@     after callerr := callresult.1
+//@   ensures [C03] argerror: argfail ==> ncall == 0 && result.1 != nil
+//@   ensures [C20] callerrorcites: ncall == 1 && callerr != nil ==> result.1 != nil && cite(result.1) == mc.LineNum
+//@   modifies frame evalframe
+
+//@ func (*ThreeLevelCall).Evaluate$1
+//@   props C09 C20
+//@   recoverer
+//@   requires tlc != nil
+//@   ensures [C09] converted: panicking ==> err != nil
+//@   ensures [C20] cites: panicking ==> cite(err) == tlc.LineNum
+//@   ensures unchanged: !panicking ==> err == old(err)
+//@   modifies err
+//@   nopanic
+
+// ThreeLevelCall: arguments are evaluated once, in order, before the one call; a failing call yields an error citing this node (C03, C09, C20)
+//@ func (*ThreeLevelCall).Evaluate
+//@   props C03 C09 C20
+//@   requires tlc != nil
+//@   recovers
+//@   nopanic
+//@   ghost nargs int = 0
+//@   ghost ncall int = 0
+//@   ghost argv []reflect.Value = nil
+//@   ghost argfail bool = false
+//@   ghost callerr error = nil
+//@   oncall (*Args).Evaluate
+//@     assert [C03] argsfirst: nargs == 0 && ncall == 0 && recv == tlc.MethodArgs
+//@     after nargs := 1
+//@     after argv := callresult.0
+//@     after argfail := callresult.1 != nil
+//@   oncall (*context.DataContext).ExecThreeLevel
+//@     assert [C03] onecall: ncall == 0 && !argfail && arg1 == tlc.ThreeLevel && (nargs == 1 ==> arg2 == argv)
+//@     after ncall := 1
+//@     after callerr := callresult.1
+//@   ensures [C03] argerror: argfail ==> ncall == 0 && result.1 != nil
+//@   ensures [C20] callerrorcites: ncall == 1 && callerr != nil ==> result.1 != nil && cite(result.1) == tlc.LineNum
+//@   modifies frame evalframe
+
+//@ func (*Args).Evaluate
+//@   props C03
+//@   ensures result.1 == nil ==> len(result.0) == len(as.ArgList)
+//@   modifies frame evalframe
+//@   trusted argument list contract pending
